@@ -77,6 +77,10 @@ CHECKS = {
    technique="deviation-bounded DFS over public operation sequences of the real GPU, sound, entropy, clock and 9P drivers against reference devices decoding every chain from the specification's structures, with the device's response an explored choice; exhaustive EDID sweeps through the real get_edid path; platform ledger hook for backing memory; checked and release profiles",
    text="GPU: every sequence (bounded depth) over resolution, flush, cursor set-up/move, change_resolution over four sizes, setup_framebuffer and get_edid with honest / error / wrong-success responses (<= 2 per run): field-exact command encodings and required order, an error for every non-success response and no further commands after it, backing memory inside live DMA at attach time and never freed while attached (absent errors). Sound: parameter validation, field-exact control requests, per-status results, PCM data arriving exactly once in order in chunks <= period tagged with the stream id, non-blocking transfers completed in any order with per-token status, no transfer before parameters. Entropy/clock/9P: request shapes, byte order and results for every explored device answer. EDID: all 2^24 (quick 2^18) combinations of the decoded preferred-timing bits, all 2^16 values of a standard timing, ordering pairs and size values.",
    note="Trusts the reference devices (lab/src/c20.rs, c20_sound.rs) written from virtio spec 5.7, 5.14, virtio-rtc and VESA E-EDID. Blocking pcm_xfer is explored with in-order completion only."),
+ "C02": dict(level="model_checking", design="DESIGN.md §2.4, §4 C02",
+   technique="explicit-state BFS over operation histories of the real VirtQueue combined with exhaustive enumeration of observation instants inside each call: queue memory is page-protected and every driver instruction touching it is single-stepped (mprotect + SIGSEGV + x86 trap flag), with a snapshot after each; no source hooks",
+   text="For every history up to the stated depth (direct and indirect, event-idx on/off, legacy and modern layout, index wrap offsets) and every instant after a machine instruction of the compiled driver that stored to the descriptor table or available ring: the available index the device could read never decreases or skips, everything below it (ring slot, descriptors, indirect table already shared) is complete and identical to its final form, the index store is the last store of a submission, and chains that are available but not completed are never disturbed by later calls.",
+   note="Sequentially consistent observer at instruction granularity on x86-64; reorderings that only a weakly ordered CPU would expose are outside what this explorer can see. Trusts the tracer (lab/src/tracer.rs) and the reference ring walker."),
 }
 
 NOT_YET = "check not built yet in this round (machinery under construction; see DESIGN.md)"
